@@ -153,6 +153,22 @@ def run_case(case, rec, lowered=True):
             pt, got, want = worst[name][1]
             bad(name, "mismatch", pt, got, want)
 
+    # the dict entry point with exactly the compiled names, inserted in other orders than the variable list
+    if not nbad and len(V) >= 2:
+        pt = case["points"][0]
+        want, t = R.ref_value(D, node, pt)
+        for label, order in (("reversed", list(reversed(V))), ("rotated", V[1:] + V[:1]), ("sorted-by-value", sorted(V, key=lambda nm: (pt[nm], nm)))):
+            try:
+                got = _scalar(routes["dict"]({nm: pt[nm] for nm in order}))
+            except Exception as ex:
+                bad("dict", "raises-on-exact-keys:" + type(ex).__name__, pt, ex=ex)
+                break
+            rec.cmp(1, cell)
+            rec.events["dict-key-order-comparisons"] += 1
+            if not close(got, want, RTOL, t.mag)[0]:
+                bad("dict", "result-depends-on-the-insertion-order-of-the-dict:" + label, pt, got, want)
+                break
+
     # the caller's point buffer reused: one ndarray (and one dict) updated in place between the calls
     if len(case["points"]) >= 2 and not nbad:
         buf = B.point_array(V, case["points"][0]).copy()
